@@ -3097,839 +3097,10 @@ Section Sim.
     cbn [pop_scope locals captured]. rewrite lookup_app_split, He, <- lookup_app_split. exact E1.
   Qed.
 
-  Lemma from_named_correct : forall a0 b incl step x collide body, block_spec body ->
-    stmt_spec (SFrom a0 b incl step (Some x) collide body).
-  Proof.
-    intros a0 b incl step x collide body Hbody pins lr il sl bt ct fuel k a g env s B Hfu Hlr Hok Hb Hit Hend Hlc Hip Hacb HR. destruct Hend as [Hend|[Hend _]]; [|discriminate Hend].
-    destruct fuel as [|fuel]; [exact Logic.I|].
-    rewrite ok_SFrom in Hok. rewrite !Bool.andb_true_iff in Hok. destruct Hok as [[Hoa Hob] Hok].
-    set (Bb := if collide then B else x :: B).
-    assert (Hparts : uname x /\ (if collide then In x B /\ used_e b = [] else mem_str x B = false /\ ~ In x (used_e b)) /\
-                     step_ok (Bb ++ CD) step = true /\ ok_block FT SP CD true Bb body = true).
-    { unfold Bb. destruct collide; rewrite !Bool.andb_true_iff in Hok.
-      - destruct Hok as [[[[[Hx Hxf] HxB] Hub] Hst] Hokb]. apply Bool.negb_true_iff in Hxf.
-        split; [exact (uname_of_b x Hx Hxf)|]. split; [split; [now apply mem_str_In|destruct (used_e b); [reflexivity|discriminate]]|]. auto.
-      - destruct Hok as [[[[[Hx Hxf] HxB] HxU] Hst] Hokb]. apply Bool.negb_true_iff in Hxf. apply Bool.negb_true_iff in HxB.
-        apply Bool.negb_true_iff in HxU.
-        split; [exact (uname_of_b x Hx Hxf)|]. split; [split; [exact HxB|intros Hi; apply In_mem_str in Hi; congruence]|]. auto. }
-    destruct Hparts as (Hx & HxB & Hst & Hokb). clear Hok.
-    apply step_ok_expr in Hst.
-    cbn [ok_fromb] in Hob.
-    rewrite sitems_SFrom in *. cbv zeta in *. cbn [from_idn from_lr1] in *. rewrite step_code_expr in *.
-    rewrite (xcode_pure c b (proj1 (ok_expr_parts _ _ Hob))) in *.
-    set (se := step_expr step) in *.
-    set (cb0 := bitems c (S lr) (Some 1) body) in *.
-    set (endr := lregn (S lr)) in *.
-    set (la := length (xcode c a0)) in *. set (lb := length (pcode c b)) in *. set (lbd := length cb0) in *.
-    set (ls := length (pcode c se)) in *.
-    set (nd := if collide then 0 else 1).
-    match type of Hend with k + length ?L < _ =>
-      assert (Hlen : length L = la + 1 + lb + 1 + 3 + 1 + (lbd + ls + 2) + nd)
-        by (rewrite !app_length, resolve_length, !app_length, !map_length; unfold nd; destruct collide; cbn [length]; fold la lb lbd ls; lia)
-    end.
-    rewrite Hlen in *. clear Hlen.
-    apply items_at_app in Hit as [Hca Hit]. apply items_at_CI in Hca. rewrite map_length in Hit. fold la in Hit.
-    apply items_at_cons in Hit as [Hi1 Hit].
-    apply items_at_app in Hit as [Hcb Hit]. apply items_at_CI in Hcb. rewrite map_length in Hit. fold lb in Hit.
-    apply items_at_cons in Hit as [Hi3 Hit]. cbn [app] in Hit.
-    apply items_at_cons in Hit as [Hc1 Hit]. apply items_at_cons in Hit as [Hc2 Hit]. apply items_at_cons in Hit as [Hc3 Hit].
-    apply items_at_cons in Hit as [Hw Hit].
-    apply items_at_app in Hit as [Hres Hdel]. rewrite resolve_length in Hdel.
-    apply items_at_resolve_gen in Hres. apply items_at_app in Hres as [Hfull0 Hj].
-    apply items_at_app in Hfull0 as [Hib Hstp]. fold lbd in Hstp.
-    apply items_at_app in Hstp as [Hcs Hs2]. apply items_at_CI in Hcs. rewrite map_length in Hs2. fold ls in Hs2.
-    apply items_at_cons in Hs2 as [Hs2 _].
-    apply items_at_cons in Hj as [Hj _].
-    cbn [item_instr I] in Hi1, Hi3, Hc1, Hc2, Hc3, Hw, Hs2, Hj.
-    repeat rewrite app_length in Hw. repeat rewrite app_length in Hib. repeat rewrite app_length in Hcs.
-    repeat rewrite app_length in Hs2. repeat rewrite app_length in Hj. repeat rewrite app_length in Hdel.
-    repeat rewrite map_length in Hw. repeat rewrite map_length in Hib. repeat rewrite map_length in Hj. repeat rewrite map_length in Hdel.
-    cbn [length] in Hw, Hib, Hcs, Hs2, Hj, Hdel.
-    fold lbd ls in Hw, Hib, Hcs, Hs2, Hj, Hdel.
-    set (k1 := k + la) in *. set (k3 := S k1 + lb) in *. set (kc := S k3) in *.
-    set (kw := S (S (S kc))). set (kb := S kw). set (ks := kb + lbd). set (kp := ks + ls). set (kj := S kp). set (kd := S kj). set (fin := kd + nd).
-    assert (Hw' : nth_error code kw = Some (mkI OP_WHILE_LOOP [sN (lbd + ls + 3)])).
-    { replace (lbd + ls + 3) with (lbd + (ls + 1) + 1 + 1) by lia. exact Hw. }
-    assert (Hib' : items_at kd ks kb cb0).
-    { replace kd with (S (S (S (S kc))) + (lbd + (ls + 1) + 1)) by (unfold kd, kj, kp, ks, kb, kw; lia).
-      replace ks with (S (S (S (S kc))) + (lbd + (ls + 1) + 1) - (ls + 1) - 1) by (unfold ks, kb, kw; lia).
-      exact Hib. }
-    assert (Hcs' : code_at code ks (pcode c se)) by exact Hcs.
-    assert (Hs2' : nth_error code kp = Some (mkI OP_BIN_OP_ASSIGN [[43%N; 61%N]; x])) by exact Hs2.
-    assert (Hj' : nth_error code kj = Some (mkI OP_JMP_POP [neg_off (lbd + ls + 5)])).
-    { replace kj with (S (S (S (S kc))) + (lbd + (ls + 1))) by (unfold kj, kp, ks, kb, kw; lia).
-      replace (lbd + ls + 5) with (1 + 3 + (lbd + (ls + 1))) by lia. exact Hj. }
-    assert (Hdel' : collide = false -> nth_error code kd = Some (mkI OP_DELETE_NAME_SCOPED [x; endr])).
-    { intros Ec. rewrite Ec in Hdel. apply items_at_cons in Hdel as [Hdel _]. cbn [item_instr I] in Hdel.
-      replace kd with (S (S (S (S kc))) + (lbd + (ls + 1) + 1)) by (unfold kd, kj, kp, ks, kb, kw; lia). exact Hdel. }
-    clear Hw Hib Hcs Hs2 Hj Hdel.
-    assert (Hfin : k + (la + 1 + lb + 1 + 3 + 1 + (lbd + ls + 2) + nd) = fin) by (unfold fin, kd, kj, kp, ks, kb, kw, kc, k3, k1; lia).
-    rewrite Hfin in *.
-    assert (Hsml : forall j, j <= S (S lr) -> small j).
-    { intros j Hj. eapply small_le; [|exact Hsmall]. unfold fin, kd, kj, kp, ks, kb, kw, kc, k3, k1 in Hend. lia. }
-    destruct HR as (HG & Hops & Hss).
-    rewrite exec_SFrom. cbn [after].
-    destruct fuel as [|fuel]; [exact Logic.I|].
-    (* the lower bound *)
-    pose proof (rhs_run a0 pins c (S fuel) k a g env s B ltac:(lia) Hoa Hb
-                  ltac:(fold la; unfold fin, kd, kj, kp, ks, kb, kw, kc, k3, k1 in *; lia) Hca
-                  ltac:(fold la; unfold fin, kd, kj, kp, ks, kb, kw, kc, k3, k1 in *; lia) Hip Hacb Hops HG) as He.
-    fold la in He. fold k1 in He. rename s into s00.
-    destruct (eval (S fuel) env a0 s00) as [va s|s|f s|]; cbn [rhs_res] in He; [|exact Logic.I|exact He|exact Logic.I].
-    destruct He as (Hfoa & a1x & g1 & R1 & Hip1 & Hops1 & HG1 & Hf1 & Ha1 & Hss1 & Hlk1 & _).
-    rewrite (act_ext a a1x _ _ Ha1 Hip1 Hops1 Hss1) in R1. clear a1x Hip1 Hops1 Ha1 Hss1.
-    (* the counter: a fresh name (declared) / an existing variable (assigned) *)
-    destruct (locals env) as [|sc0 l'] eqn:El; [exact (False_ind _ (Rg_ne _ _ _ HG1 El))|].
-    destruct ((if collide then assign env s x va else declare env s x va)) as [env1 s1] eqn:Edec.
-    assert (Hxn : collide = false -> lookup_scopes x (sc0 :: l') = None).
-    { intros Ec. rewrite Ec in HxB. destruct HxB as [HxB HxU]. rewrite <- El. destruct (lookup_scopes x (locals env)) eqn:E; [|reflexivity].
-      destruct (proj1 (proj1 Hb x (uname_not_hid _ Hx)) ltac:(congruence)) as [Hin|Hin]; [|apply Hlfuns in Hin]; apply In_mem_str in Hin; [congruence|].
-      exfalso. exact (uname_nfun _ Hx (mem_str_In _ _ Hin)). }
-    assert (Eas : assign env s x va = (env1, s1)).
-    { destruct collide; [exact Edec|]. unfold assign. rewrite El, (Hxn eq_refl). exact Edec. }
-    assert (Hcase : (collide = false /\ locals env1 = assoc_set x (N.of_nat (length (store s))) sc0 :: l' /\
-                     (forall c0 v, sget s c0 = Some v -> sget s1 c0 = Some v)) \/
-                    (collide = true /\ locals env1 = sc0 :: l' /\ used_e b = [])).
-    { destruct collide.
-      - right. split; [reflexivity|]. split; [|exact (proj2 HxB)].
-        pose proof (bound_in_look _ _ _ Hb (proj1 HxB)) as Hl0.
-        unfold assign in Edec. destruct (lookup_scopes x (locals env)) eqn:E; [|congruence].
-        inversion Edec; subst env1. exact El.
-      - left. split; [reflexivity|]. unfold declare, alloc in Edec. rewrite El in Edec. inversion Edec. split; [reflexivity|].
-        intros c0 v Hv. unfold sget in *. cbn [store]. rewrite nth_error_app1; [exact Hv|apply nth_error_Some; congruence]. }
-    assert (Ero : rout s1 = rout s).
-    { destruct collide.
-      - unfold assign in Edec. destruct (lookup_scopes x (locals env)); [inversion Edec; reflexivity|].
-        unfold declare, alloc in Edec. rewrite El in Edec. inversion Edec. reflexivity.
-      - unfold declare, alloc in Edec. rewrite El in Edec. inversion Edec. reflexivity. }
-    set (lL := locals env1) in *.
-    (* store_fast x / store x (the VM sets the counter BEFORE it evaluates the upper bound) *)
-    set (a1 := upd a k1 [inj va]) in *.
-    set (i_sx := mkI (if collide then OP_STORE else OP_STORE_FAST) [x]) in *.
-    set (g1t := trc name a1 g1 i_sx).
-    assert (HG1t : Rg pins env s g1t) by (apply Rg_trc; exact HG1).
-    destruct (store_rel env s g1t x va env1 s1 HG1t Hx Hfoa Eas) as (g2 & Hst2 & HG2S & Hd2 & Hbx2 & HtlS & Hoth2).
-    set (a2 := upd a (S k1) []).
-    assert (R2 : xrun prog name code a g a2 g2).
-    { eapply xrun_trans; [exact R1|]. destruct collide.
-      - eapply (xstep_next prog name code a1 g1 i_sx _ k1 (set_ops a1 [])); [reflexivity|exact Hi1|apply dec_store|].
-        apply (exec_store x a1 g1t (inj va) g2); [reflexivity|exact Hst2].
-      - assert (Hfn : find_in_function x (frames g1t) = None).
-        { pose proof (Rfr_look _ _ _ _ (Rg_fr _ _ _ HG1t) x Hx) as H. rewrite El, (Hxn eq_refl) in H.
-          destruct (find_in_function x (frames g1t)); [contradiction|reflexivity]. }
-        unfold store_var in Hst2. rewrite Hfn in Hst2.
-        eapply (xstep_next prog name code a1 g1 i_sx _ k1 (set_ops a1 [])); [reflexivity|exact Hi1|apply dec_store_fast|].
-        apply (exec_store_fast x a1 g1t (inj va) g2); [reflexivity|exact Hst2]. }
-    assert (HbL1 : bound_in Bb env1).
-    { unfold Bb. destruct Hcase as [(Ec & El1 & _)|(Ec & El1 & _)]; rewrite Ec in *.
-      - eapply bound_in_assign; eassumption.
-      - eapply bound_in_eq; [exact Hb|]. fold lL. rewrite El1, El. reflexivity. }
-    (* the upper bound: the reference semantics evaluates it before the counter exists; same result *)
-    assert (Hagb : forall y, In y (used_e b) -> agree env s env1 s1 y).
-    { destruct Hcase as [(Ec & El1 & Es1)|(Ec & El1 & Hub)]; [|rewrite Hub; intros y []]. rewrite Ec in HxB. destruct HxB as [HxB HxU].
-      eapply (agree_of pins env s g1 env1 s1 b B HG1 Hob Hb (assign_captured _ _ _ _ _ _ Eas)); [|exact Es1].
-      intros y Hy. fold lL. rewrite El1, El. cbn [lookup_scopes].
-      rewrite assoc_set_other; [reflexivity|]. intros ->. exact (HxU Hy). }
-    destruct (ok_expr_parts _ _ Hob) as (Hpb & _ & _).
-    destruct (eval_pure_congr b Hpb (S fuel) env s env1 s1 Hagb) as [Hst_b Eb1].
-    assert (HobB : ok_expr (Bb ++ CD) b = true) by (unfold Bb; destruct collide; [exact Hob|exact (ok_expr_weaken (B ++ CD) x b Hob)]).
-    pose proof (expr_run pins b c (S fuel) (S k1) a2 g2 env1 s1 Bb HobB HbL1 ltac:(lia) Hcb
-                  ltac:(fold lb; unfold fin, kd, kj, kp, ks, kb, kw, kc, k3 in *; lia) eq_refl eq_refl Hacb HG2S) as Heb.
-    rewrite Eb1 in Heb. fold lb in Heb.
-    destruct (eval (S fuel) env b s) as [vb sb|sb|f sb|]; cbn [res_to res_st] in Hst_b, Heb; [|contradiction| |exact Logic.I].
-    2:{ subst sb. destruct Heb as (_ & e0 & g' & Hf & Hr & Ho). rewrite Ero in Ho.
-        eapply post_expr_fail; [eapply xrun_fail; [exact R2|exact Hf]|exact Hr|exact Ho]. }
-    subst sb. destruct Heb as (_ & Hfob & g3 & R3 & HG3 & Hf3 & Hlk3).
-    destruct va as [i0|?|?| |? ? ?]; try exact Logic.I.
-    destruct vb as [hi|?|?| |? ? ?]; try exact Logic.I.
-    cbv zeta. rewrite Edec.
-    set (a3 := upd a2 (S k1 + lb) [inj (RInt hi)]) in *.
-    (* store_fast L#n *)
-    set (i_se := mkI OP_STORE_FAST [endr]) in *.
-    set (g3t := trc name a3 g3 i_se).
-    assert (HG3t : Rg pins env1 s1 g3t) by (apply Rg_trc; exact HG3).
-    destruct (bind_reg_rel pins env1 s1 g3t endr (inj (RInt hi)) HG3t ltac:(intros [_ [Hu _]]; exact Hu))
-      as (f3 & R & Ef3 & Hb3).
-    cbv zeta in Hb3. destruct Hb3 as [Hbind3 HG4].
-    set (ce := N.of_nat (length (cells g3t))) in *.
-    set (F2 := {| lab := lab f3; vars := assoc_set endr ce (vars f3) |}) in *.
-    match type of HG4 with Rg _ _ _ ?G => set (g4 := G) in * end.
-    set (a4 := upd a (S (S k1 + lb)) []).
-    assert (Hip4 : a_ip a4 = kc) by reflexivity.
-    assert (R4 : xrun prog name code a g a4 g4).
-    { eapply xrun_trans; [exact R2|]. eapply xrun_trans; [exact R3|].
-      eapply (xstep_next prog name code a3 g3 i_se _ k3 (set_ops a3 [])); [reflexivity|exact Hi3|apply dec_store_fast|].
-      apply (exec_store_fast endr a3 g3t (inj (RInt hi)) g4); [reflexivity|exact Hbind3]. }
-    (* ---- static facts about the loop-head frames F2 :: R and scopes lL *)
-    set (pins' := add_vpin pins ce (VInt hi)).
-    assert (Hxe : x <> endr) by (exact (uname_not_lregn _ _ Hx)).
-    assert (HR_tl : R = tl (frames g)).
-    { rewrite <- Hf1. change (frames g1) with (frames g1t). rewrite <- HtlS, <- Hf3.
-      change (frames g3) with (frames g3t). now rewrite Ef3. }
-    assert (HaeF2 : assoc endr (vars F2) = Some ce) by (unfold F2; cbn [vars]; apply assoc_set_same).
-    assert (Ef4 : frames g4 = F2 :: R) by reflexivity.
-    assert (HndF2 : keys_nd (vars F2)).
-    { pose proof (Rg_nd _ _ _ HG4) as Hnd. rewrite Ef4 in Hnd. inversion Hnd; assumption. }
-    assert (Hnej : forall j, j <= lr -> lregn j <> endr).
-    { intros j Hj E. apply lregn_inj in E; [lia|apply Hsml; lia|apply Hsml; lia]. }
-    assert (HlkF2 : lkeep lr (frames g) (F2 :: R)).
-    { intros j Hj. cbn [find_in_function F2 vars lab]. rewrite assoc_set_other by exact (Hnej j Hj).
-      change (match assoc (lregn j) (vars f3) with Some c0 => Some c0 | None => if special (lab f3) then find_in_function (lregn j) R else None end)
-        with (find_in_function (lregn j) (f3 :: R)).
-      rewrite <- Ef3. change (frames g3t) with (frames g3). rewrite (proj1 (Hlk3 j)).
-      rewrite (Hoth2 (lregn j) (fun E => uname_not_lregn x j Hx (eq_sym E))). change (frames g1t) with (frames g1). exact (proj1 (Hlk1 j)). }
-    assert (HxBb : In x Bb) by (unfold Bb; destruct collide; [exact (proj1 HxB)|now left]).
-    assert (Hcx : exists cx, lookup_scopes x lL = Some cx).
-    { pose proof (bound_in_look _ _ _ HbL1 HxBb) as Hl0. fold lL in Hl0. destruct (lookup_scopes x lL); [eexists; reflexivity|congruence]. }
-    destruct Hcx as [cx HlxL].
-    (* ---- leaving the loop: delete the counter and the end register (a colliding counter stays) *)
-    assert (Hexit : forall a5 g5 env5 s5, locals env5 = lL -> Rg pins' env5 s5 g5 -> frames g5 = F2 :: R ->
-              a_ip a5 = kd -> a_ops a5 = [] -> length lL <= S (a_ss a5) ->
-              exists a6 g6, xrun prog name code a5 g5 a6 g6 /\ a_ip a6 = fin /\
-                            Rst pins (if collide then env5 else undeclare env5 x) s5 a6 g6 /\
-                            act_same a5 a6 /\ tl (frames g6) = R /\
-                            locals (if collide then env5 else undeclare env5 x) = sc0 :: l' /\ lkeep lr (F2 :: R) (frames g6)).
-    { intros a5 g5 env5 s5 El5 HG5 Ef5 Hip5 Hops5 Hss5.
-      destruct Hcase as [(Ec & El1 & _)|(Ec & El1 & _)]; fold lL in El1.
-      2:{ (* a colliding counter: nothing to delete *)
-        exists a5, g5. rewrite Ec. split; [apply xrun_refl|]. split; [unfold fin, nd; rewrite Ec, Nat.add_0_r; exact Hip5|].
-        split; [split; [eapply Rg_weaken_pin; exact HG5|split; [exact Hops5|rewrite El5; exact Hss5]]|].
-        split; [apply act_same_refl|]. split; [rewrite Ef5; reflexivity|]. split; [rewrite El5; exact El1|].
-        rewrite Ef5. apply lkeep_refl. }
-      rewrite Ec. specialize (Hxn Ec). specialize (Hdel' Ec).
-      set (cx0 := N.of_nat (length (store s))) in *.
-      assert (Hxs0 : assoc x sc0 = None /\ lookup_scopes x l' = None).
-      { cbn [lookup_scopes] in Hxn. destruct (assoc x sc0); [discriminate|]. auto. }
-      destruct Hxs0 as [Hxs0 Hxl'].
-      assert (Hx3 : exists cxv, assoc x (vars f3) = Some cxv).
-      { destruct (Rg_lookup env1 s1 g3t x HG3t Hx ltac:(eapply bound_in_look; [exact HbL1|exact HxBb])) as (c1 & c1' & v1 & _ & E2 & _).
-        rewrite Ef3 in E2. cbn [find_in_function] in E2.
-        destruct (assoc x (vars f3)) as [cxv|]; [eexists; reflexivity|exfalso].
-        pose proof (Rg_fr _ _ _ HG3t) as Hfr. fold lL in Hfr. rewrite El1, Ef3 in Hfr. cbn [StmtRel.Rfr] in Hfr. destruct Hfr as [_ Hfr].
-        destruct l' as [|sc' l''].
-        - rewrite Hfr in E2. discriminate.
-        - destruct Hfr as [Hsp Hfr]. rewrite Hsp in E2.
-          pose proof (Rfr_look _ _ _ _ Hfr x Hx) as Hlk. rewrite Hxl', E2 in Hlk. exact Hlk. }
-      destruct Hx3 as [cx' Hax3].
-      assert (HaxF2 : assoc x (vars F2) = Some cx').
-      { unfold F2. cbn [vars]. rewrite assoc_set_other by exact Hxe. exact Hax3. }
-      set (vs := assoc_del endr (assoc_del x (vars F2))).
-      assert (Hvs1 : forall y, uname0 y -> y <> x -> assoc y vs = assoc y (vars F2)).
-      { intros y Hy Hne. assert (y <> endr) by (intros ->; exact (proj1 (proj2 Hy))).
-        unfold vs. now rewrite !assoc_del_other by assumption. }
-      assert (Hvs2 : assoc x vs = None).
-      { unfold vs. rewrite assoc_del_other by exact Hxe. now apply assoc_del_nd_none. }
-      assert (Hndvs : keys_nd vs) by (unfold vs; apply keys_nd_assoc_del; apply keys_nd_assoc_del; exact HndF2).
-      assert (Hdel0 : assoc_del x (assoc_set x cx0 sc0) = sc0) by (now apply assoc_del_set_absent).
-      set (i_d := mkI OP_DELETE_NAME_SCOPED [x; endr]) in *.
-      set (g5t := trc name a5 g5 i_d).
-      assert (El5' : locals env5 = assoc_set x cx0 sc0 :: l') by (rewrite El5; exact El1).
-      assert (Eu : locals (undeclare env5 x) = sc0 :: l') by (unfold undeclare; rewrite El5'; cbn [locals]; now rewrite Hdel0).
-      exists (set_ip a5 (S (a_ip a5))), (with_frames g5t ({| lab := lab F2; vars := vs |} :: R)).
-      split; [|split; [|split; [|split; [|split; [|split]]]]].
-      - eapply (xstep_next prog name code a5 g5 i_d _ kd a5); [exact Hip5|exact Hdel'|apply dec_delete2|].
-        exact (exec_delete2 x endr a5 g5t F2 R cx' ce Ef5 Hxe HaxF2 HaeF2).
-      - cbn [set_ip a_ip]. rewrite Hip5. unfold fin, nd. rewrite Ec. lia.
-      - split; [|split; [exact Hops5|]].
-        + eapply (undeclare_rel pins ce (VInt hi) env5 s5 g5t x (assoc_set x cx0 sc0) l' F2 R vs);
-            [apply Rg_trc; exact HG5|exact El5'|exact Ef5|exact Hx|exact Hvs1|exact Hvs2|now rewrite Hdel0|exact Hxl'|exact Hndvs|].
-          intros x0 [d0 d0'] Hin ->. destruct (Rg_dlook _ _ _ HG1 x d0 d0' Hin 0 ltac:(rewrite El; cbn [length]; lia)) as [H1 _].
-          cbn [skipn] in H1. rewrite app_nil_r, El in H1. congruence.
-        + rewrite Eu. cbn [set_ip a_ss]. rewrite El1 in Hss5. cbn [length] in *. exact Hss5.
-      - repeat split.
-      - reflexivity.
-      - exact Eu.
-      - intros j Hj. cbn [with_frames frames find_in_function vars lab]. unfold vs.
-        rewrite !assoc_del_other; [reflexivity|exact (fun E => uname_not_lregn x j Hx (eq_sym E))|exact (Hnej j Hj)]. }
-    assert (HbL : forall envL, locals envL = lL -> bound_in Bb envL).
-    { intros envL ElL. eapply bound_in_eq; [exact HbL1|]. rewrite ElL. reflexivity. }
-    assert (HLL : exists scL, lL = scL :: l').
-    { destruct Hcase as [(_ & El1 & _)|(_ & El1 & _)]; fold lL in El1; rewrite El1; eexists; reflexivity. }
-    destruct HLL as [scL ELL].
-    assert (HlenL : length lL = S (length l')) by (rewrite ELL; reflexivity).
-    assert (HneLL : lL <> []) by (rewrite ELL; discriminate).
-    assert (HtlL : tl lL = l') by (rewrite ELL; reflexivity).
-    assert (Hkd : kw + (lbd + ls + 3) = kd) by (unfold kd, kj, kp, ks, kb; lia).
-    assert (Hkj : kj = kc + (lbd + ls + 5)) by (unfold kj, kp, ks, kb, kw; lia).
-    destruct (ok_expr_parts _ _ Hst) as (Hpse & Hlse & Huse).
-    (* ---- the loop *)
-    assert (Hloop : forall n aL gL envL sL, locals envL = lL -> Rg pins' envL sL gL -> frames gL = F2 :: R ->
-              a_ip aL = kc -> a_cb aL = cb -> length lL <= S (a_ss aL) ->
-              post pins lr sl bt ct fin B envL (frames g) aL gL
-                   (from_iter (S fuel) incl hi step x collide body n envL sL)).
-    { induction n as [|n IH]; intros aL gL envL sL ElL HGL EfL HipL HcbL HssL; [exact Logic.I|].
-      rewrite from_iter_S. rewrite ElL, HlxL.
-      destruct (Rg_lookup envL sL gL x HGL Hx ltac:(rewrite ElL, HlxL; discriminate)) as (c0 & c0' & v & E1 & E2 & Hp & E3 & Hfo & E4).
-      rewrite ElL, HlxL in E1. inversion E1; subst c0. rewrite E3.
-      destruct v as [i|?|?| |? ? ?]; try exact Logic.I. cbn [inj] in E4.
-      assert (Fe : find_in_function endr (frames gL) = Some ce) by (rewrite EfL; cbn [find_in_function]; now rewrite HaeF2).
-      assert (Ce : cell_get gL ce = Some (VInt hi)).
-      { destruct (Rg_pins _ _ _ HGL) as [Hv _]. exact (proj1 (Hv ce (VInt hi) (or_introl (conj eq_refl eq_refl)))). }
-      destruct (from_cond_run kc x endr incl aL gL c0' ce i hi Hc1 Hc2 Hc3 HipL E2 E4 Fe Ce) as (gc & Rc & Efc & HRc).
-      set (bb := if incl then (i <=? hi)%Z else (i <? hi)%Z) in *.
-      set (ac := upd aL kw [VBool bb]) in *.
-      set (i_w := mkI OP_WHILE_LOOP [sN (lbd + ls + 3)]) in *.
-      set (gct := trc name ac gc i_w).
-      assert (HGct : Rg pins' envL sL gct) by (apply Rg_trc; apply HRc; exact HGL).
-      assert (Hdecw : decode i_w = DOk (DWhile (Z.of_nat (lbd + ls + 3)))) by (apply dec_while; apply small_code; unfold fin, kd, kj, kp, ks, kb in *; lia).
-      pose proof (exec_while_gen (Z.of_nat (lbd + ls + 3)) ac gct [] bb eq_refl) as Hxw.
-      assert (HneL : locals envL <> []) by (rewrite ElL; exact HneLL).
-      destruct bb.
-      2:{ (* the counter has passed the end: leave *)
-        set (a5 := set_ip (set_ops ac []) (kw + (lbd + ls + 3))).
-        assert (R5 : xrun prog name code aL gL a5 gct).
-        { eapply xrun_trans; [exact Rc|].
-          eapply (xstep_goto prog name code ac gc i_w _ kw _ (set_ops ac [])); [reflexivity|exact Hw'|exact Hdecw|exact Hxw|].
-          apply goto_fwd. cbn [set_ops a_ip ac upd set_ip]. unfold fin in *. lia. }
-        destruct (Hexit a5 gct envL sL ElL HGct ltac:(change (frames gct) with (frames gc); now rewrite Efc) ltac:(cbn; exact Hkd) eq_refl HssL)
-          as (a6 & g6 & R6 & Hip6 & HR6 & Ha6 & Hf6 & El6 & Hlk6).
-        cbn [post]. split; [split; [rewrite El6, ElL; cbn [tl]; symmetry; exact HtlL|rewrite El6; discriminate]|].
-        split; [eapply bound_in_eq; [exact Hb|rewrite El6, El; reflexivity]|].
-        exists a6, g6. split; [eapply xrun_trans; eassumption|]. split; [exact Hip6|]. split; [exact HR6|].
-        split; [destruct Ha6 as (A1 & A2 & A3); repeat split; assumption|].
-        split; [rewrite Hf6; exact HR_tl|eapply lkeep_trans; [exact HlkF2|exact Hlk6]]. }
-      (* one more iteration: push <while>, run the body *)
-      set (a0' := set_ss (upd aL kb []) (S (a_ss aL))).
-      set (g0 := push_frame gct LWhile).
-      assert (R0 : xrun prog name code aL gL a0' g0).
-      { eapply xrun_trans; [exact Rc|].
-        eapply (xstep_push prog name code ac gc i_w _ kw LWhile (set_ops ac [])); [reflexivity|exact Hw'|exact Hdecw|exact Hxw]. }
-      assert (HR0 : Rst pins' (push_scope envL) sL a0' g0).
-      { split; [apply push_rel; [exact HGct|reflexivity]|]. split; [reflexivity|].
-        unfold a0'. cbn [push_scope locals length set_ss a_ss upd set_ip set_ops]. rewrite ElL. apply le_n_S. exact HssL. }
-      assert (HbL0 : bound_in Bb (push_scope envL)).
-      { exact (HbL envL ElL). }
-      assert (Hlc0 : lc_ok true (Some 1) kd ks (push_scope envL) (kb + length cb0)).
-      { split; [discriminate|]. intros m E. inversion E; subst m. cbn [push_scope locals length]. rewrite ElL.
-        fold lbd. fold ks. rewrite HlenL. unfold fin, kd, kj, kp in *. repeat split; lia. }
-      pose proof (Hbody pins' (S lr) true (Some 1) kd ks (S fuel) kb a0' g0 (push_scope envL) sL Bb ltac:(lia)
-                    ltac:(unfold kb, kw, kc, k3, k1; lia) Hokb HbL0 Hib'
-                    ltac:(left; fold cb0; fold lbd; unfold fin, kd, kj, kp, ks in *; lia) Hlc0 eq_refl HcbL HR0) as H.
-      fold cb0 in H. fold lbd in H. fold ks in H. unfold in_block_.
-      destruct (exec_block (S fuel) (push_scope envL) body sL) as [sig env2 s2|f s2|]; [| |exact Logic.I].
-      2:{ cbn [post] in H |- *. eapply fail_post_map; [|exact H]. intros (e0 & g' & Hf & Hr & Ho). exists e0, g'.
-          split; [eapply xrun_fail; eassumption|]. auto. }
-      cbn [post] in H. destruct H as [[Htl2 Hne2] H]. cbn [push_scope locals tl] in Htl2. rewrite ElL in Htl2.
-      assert (Hlen2 : length (locals env2) = S (length lL)).
-      { destruct (locals env2) as [|sc2 l2]; [congruence|]. cbn [tl] in Htl2. subst l2. reflexivity. }
-      assert (Epop : locals (pop_scope env2) = lL) by exact Htl2.
-      (* after the body: the step, the back edge, the next iteration *)
-      assert (Hnext : forall aB gB, xrun prog name code a0' g0 aB gB -> a_ip aB = ks -> Rst pins' env2 s2 aB gB ->
-                act_same a0' aB -> tl (frames gB) = F2 :: R -> ncd (after_l Bb body) env2 ->
-                post pins lr sl bt ct fin B envL (frames g) aL gL
-                  (match eval (S fuel) (pop_scope env2) se s2 with
-                   | EVal sv s0 =>
-                     match sget s0 cx, sv with
-                     | Some (RInt i'), RInt d =>
-                       if i32_ok (i' + d)%Z
-                       then from_iter (S fuel) incl hi step x collide body n (pop_scope env2) (sset s0 cx (RInt (i' + d)%Z))
-                       else SFailed FOverflow s0
-                     | _, _ => SFailed (FType 13) s0 end
-                   | ENoVal s0 => SFailed (FType 3) s0 | EFail f s0 => SFailed f s0 | EFuel => SFuel end)).
-      { intros aB gB RB HipB (HGB & HopsB & HssB) HaB HfB Hncd2.
-        assert (Hup : forall y c0, y <> hid -> lookup_scopes y lL = Some c0 -> lookup_scopes y (locals env2) = Some c0).
-        { intros y c0 Hyh Hy. destruct (locals env2) as [|sc2 l2] eqn:E2l; [discriminate|]. cbn [tl] in Htl2.
-          rewrite <- Htl2 in Hy. apply NS_lookup_tl; [|exact Hyh|exact Hy]. rewrite <- E2l. exact (Rg_ns _ _ _ HGB). }
-        assert (Hlx2 : lookup_scopes x (locals env2) = Some cx) by (apply Hup; [exact (uname_not_hid _ Hx)|exact HlxL]).
-        (* the step expression: the reference semantics evaluates it outside the loop scope; same result *)
-        destruct (step_vars pins' envL env2 s2 gB Bb body se HGB Hst Hokb (HbL envL ElL) ltac:(rewrite ElL; exact Htl2) Hne2 Hncd2) as [Huse2v Hag].
-        destruct (eval_pure_congr se Hpse (S fuel) (pop_scope env2) s2 env2 s2 Hag) as [Hst_s Es].
-        pose proof (expr_run_gen pins' se c (S fuel) ks aB gB env2 s2 Hpse Hlse Huse2v ltac:(lia) Hcs'
-                      ltac:(fold ls; unfold fin, kd, kj, kp in *; lia) HipB HopsB ltac:(rewrite (proj2 (proj2 HaB)); exact HcbL) HGB) as Hes.
-        rewrite Es in Hes. fold ls in Hes. fold kp in Hes.
-        destruct (eval (S fuel) (pop_scope env2) se s2) as [sv s0|s0|f s0|]; cbn [res_to res_st] in Hst_s, Hes;
-          [|contradiction| |exact Logic.I].
-        2:{ subst s0. destruct Hes as (_ & e0 & g' & Hf & Hr & Ho). cbn [post]. apply fail_post_intro. exists e0, g'.
-            split; [eapply xrun_fail; [exact R0|]; eapply xrun_fail; [exact RB|exact Hf]|]. split; [now apply err_rel_s_of|exact Ho]. }
-        subst s0. destruct Hes as (_ & Hfos & gE & RE & HGE & HfE & _).
-        set (aE := upd aB kp [inj sv]) in *.
-        destruct (Rg_lookup env2 s2 gE x HGE Hx ltac:(rewrite Hlx2; discriminate)) as (c2 & c2' & v2 & G1 & G2 & Hp2 & G3 & Hfo2 & G4).
-        rewrite Hlx2 in G1. inversion G1; subst c2. rewrite G3.
-        destruct v2 as [i'|?|?| |? ? ?]; try exact Logic.I.
-        destruct sv as [d|?|?| |? ? ?]; try exact Logic.I. cbn [inj] in G4.
-        pose proof (from_add_run kp x d aE gE c2' i' Hs2' eq_refl eq_refl G2 G4) as Hsr.
-        destruct (i32_ok (i' + d)%Z).
-        - destruct Hsr as (gS' & RS & EfS' & HRgS').
-          set (sS := sset s2 cx (RInt (i' + d)%Z)).
-          set (aS := upd aE (S kp) [VInt (i' + d)%Z]) in *.
-          set (gS := cell_set gS' c2' (VInt (i' + d)%Z)) in *.
-          assert (HGS : Rg pins' env2 sS gS).
-          { apply (update_rel env2 s2 gS' cx c2' (RInt (i' + d)%Z)); [apply HRgS'; exact HGE| |exact Logic.I].
-            rewrite EfS'. exact Hp2. }
-          destruct (back_edge_gen pins' kj (lbd + ls + 5) kc env2 sS aS gS Hj' ltac:(unfold fin, kd, kj, kp, ks in *; lia)
-                      ltac:(unfold fin, kd in *; lia) Hkj eq_refl HGS ltac:(rewrite Hlen2, HlenL; lia))
-            as (gN & RN & HGN & EfN).
-          eapply (post_seq pins lr sl bt ct fin B envL (frames g) aL gL (pop_scope env2) (set_ip aS kc) gN).
-          + eapply xrun_trans; [exact R0|]. eapply xrun_trans; [exact RB|]. eapply xrun_trans; [exact RE|].
-            eapply xrun_trans; [exact RS|exact RN].
-          + split; [rewrite Epop, ElL; reflexivity|rewrite Epop; exact HneLL].
-          + destruct HaB as (A1 & A2 & A3). repeat split; assumption.
-          + apply IH; [exact Epop|exact HGN| |reflexivity|cbn [set_ip aS aE upd set_ops a_cb]; rewrite (proj2 (proj2 HaB)); exact HcbL|].
-            * rewrite EfN. change (frames gS) with (frames gS'). rewrite EfS', HfE. exact HfB.
-            * cbn [set_ip aS aE upd set_ops a_ss]. rewrite Hlen2 in HssB. lia.
-        - destruct Hsr as (g3x & Rf3 & Ho3). cbn [post fail_post]. exists (E_overflow OP_BIN_OP), g3x.
-          split; [eapply xrun_fail; [exact R0|]; eapply xrun_fail; [exact RB|]; eapply xrun_fail; [exact RE|exact Rf3]|].
-          split; [left; reflexivity|]. rewrite Ho3. exact (Rg_out _ _ _ HGE). }
-      assert (Hstepc : forall (e' : fenv) (s' : rstate) (bump : rvalue -> rstate -> sres_),
-                match step with
-                | None => bump (RInt 1) s'
-                | Some se0 => match eval (S fuel) e' se0 s' with
-                              | EVal sv s0 => bump sv s0 | ENoVal s0 => SFailed (FType 3) s0
-                              | EFail f s0 => SFailed f s0 | EFuel => SFuel end
-                end = match eval (S fuel) e' se s' with
-                      | EVal sv s0 => bump sv s0 | ENoVal s0 => SFailed (FType 3) s0
-                      | EFail f s0 => SFailed f s0 | EFuel => SFuel end).
-      { intros e' s' bump. unfold se. destruct step as [e|]; reflexivity. }
-      assert (Eg0 : frames g0 = {| lab := LWhile; vars := [] |} :: F2 :: R).
-      { unfold g0, push_frame. cbn [with_frames frames]. change (frames gct) with (frames gc). now rewrite Efc, EfL. }
-      destruct sig as [| | |rv].
-      - destruct H as (HB2 & aB & gB & RB & HipB & HRB & HaB & HfB & _). rewrite Eg0 in HfB. cbn [tl] in HfB. cbv zeta. rewrite Hstepc.
-        apply (Hnext aB gB RB HipB HRB HaB HfB (ncd_of_bound _ _ HB2)).
-      - (* break *)
-        destruct H as (m & aB & gB & Esl & RB & HipB & HRB & HaB & HfB). inversion Esl; subst m.
-        rewrite Eg0 in HfB. cbn [skipn] in HfB.
-        rewrite popn_1 in HRB. destruct HRB as (HGB & HopsB & HssB).
-        destruct (Hexit aB gB (pop_scope env2) s2 Epop HGB HfB HipB HopsB ltac:(rewrite <- Epop; exact HssB))
-          as (a6 & g6 & R6 & Hip6 & HR6 & Ha6 & Hf6 & El6 & Hlk6).
-        cbn [post]. split; [split; [rewrite El6, ElL; cbn [tl]; symmetry; exact HtlL|rewrite El6; discriminate]|].
-        split; [eapply bound_in_eq; [exact Hb|rewrite El6, El; reflexivity]|].
-        exists a6, g6. split; [eapply xrun_trans; [exact R0|]; eapply xrun_trans; eassumption|]. split; [exact Hip6|].
-        split; [exact HR6|]. split; [|split; [rewrite Hf6; exact HR_tl|eapply lkeep_trans; [exact HlkF2|exact Hlk6]]].
-        destruct HaB as (A1 & A2 & A3), Ha6 as (B1 & B2 & B3).
-        repeat split; [rewrite B1, A1|rewrite B2, A2|rewrite B3, A3]; reflexivity.
-      - (* continue *)
-        destruct H as (m & aB & gB & Esl & RB & HipB & HRB & HaB & HfB & _ & HnB). inversion Esl; subst m.
-        rewrite Eg0 in HfB. cbn [skipn] in HfB.
-        cbn [Nat.sub] in HRB, HnB. rewrite popn_0 in HRB, HnB. cbv zeta. rewrite Hstepc.
-        apply (Hnext aB gB RB HipB HRB HaB HfB HnB).
-      - (* return from inside the loop *)
-        destruct rv as [v|]; [|destruct H].
-        destruct H as (env'' & aB & gB & RB & HiB & HoB & HfoB & HGB & HaB).
-        cbn [post]. split.
-        { destruct collide; [split; [rewrite Epop, ElL; reflexivity|rewrite Epop; exact HneLL]|].
-          unfold undeclare. rewrite Epop, ELL. cbn [locals]. split; [rewrite ElL, ELL; reflexivity|discriminate]. }
-        exists env'', aB, gB. split; [eapply xrun_trans; [exact R0|exact RB]|].
-        split; [exact HiB|]. split; [exact HoB|]. split; [exact HfoB|]. split; [eapply Rg_weaken_pin; exact HGB|].
-        destruct HaB as (A1 & A2 & A3). repeat split; assumption. }
-    (* ---- put the pieces together *)
-    eapply (post_seq pins lr sl bt ct fin B env (frames g) a g env1 a4 g4); [exact R4|exact Hd2|repeat split|].
-    apply Hloop; [reflexivity|exact HG4|exact Ef4|exact Hip4|exact Hacb|].
-    rewrite HlenL. unfold a4. cbn [length upd set_ip set_ops a_ss] in *. exact Hss.
-  Qed.
-
+  (* from loops: proved in the second fragment (Compile/ClosSim.v); not part of this one (ok_stmt rejects them) *)
   Lemma lregn_not_uname0 : forall n, ~ uname0 (lregn n).
   Proof. intros n [_ [H _]]. exact H. Qed.
 
-  Lemma from_anon_correct : forall a0 b incl step body, block_spec body ->
-    stmt_spec (SFrom a0 b incl step None false body).
-  Proof.
-    intros a0 b incl step body Hbody pins lr il sl bt ct fuel k a g env s B Hfu Hlr Hok Hb Hit Hend Hlc Hip Hacb HR. destruct Hend as [Hend|[Hend _]]; [|discriminate Hend].
-    destruct fuel as [|fuel]; [exact Logic.I|].
-    rewrite ok_SFrom in Hok. rewrite !Bool.andb_true_iff in Hok. destruct Hok as [[Hoa Hob] [Hst Hokb]].
-    apply step_ok_expr in Hst.
-    rewrite sitems_SFrom in *. cbv zeta in *. cbn [from_idn from_lr1] in *. rewrite step_code_expr in *.
-    cbn [ok_fromb] in Hob.
-    set (se := step_expr step) in *.
-    set (cb0 := bitems c (S (S lr)) (Some 1) body) in *.
-    set (idn := lregn (S lr)) in *.
-    set (endr := lregn (S (S lr))) in *.
-    set (la := length (xcode c a0)) in *. set (lb := length (xcode c b)) in *. set (lbd := length cb0) in *.
-    set (ls := length (pcode c se)) in *.
-    match type of Hend with k + length ?L < _ =>
-      assert (Hlen : length L = la + 1 + lb + 1 + 3 + 1 + (lbd + ls + 2) + 1)
-        by (rewrite !app_length, resolve_length, !app_length, !map_length; cbn [length]; fold la lb lbd ls; lia)
-    end.
-    rewrite Hlen in *. clear Hlen.
-    apply items_at_app in Hit as [Hca Hit]. apply items_at_CI in Hca. rewrite map_length in Hit. fold la in Hit.
-    apply items_at_cons in Hit as [Hi1 Hit].
-    apply items_at_app in Hit as [Hcb Hit]. apply items_at_CI in Hcb. rewrite map_length in Hit. fold lb in Hit.
-    apply items_at_cons in Hit as [Hi3 Hit]. cbn [app] in Hit.
-    apply items_at_cons in Hit as [Hc1 Hit]. apply items_at_cons in Hit as [Hc2 Hit]. apply items_at_cons in Hit as [Hc3 Hit].
-    apply items_at_cons in Hit as [Hw Hit].
-    apply items_at_app in Hit as [Hres Hdel]. rewrite resolve_length in Hdel.
-    apply items_at_resolve_gen in Hres. apply items_at_app in Hres as [Hfull0 Hj].
-    apply items_at_app in Hfull0 as [Hib Hstp]. fold lbd in Hstp.
-    apply items_at_app in Hstp as [Hcs Hs2]. apply items_at_CI in Hcs. rewrite map_length in Hs2. fold ls in Hs2.
-    apply items_at_cons in Hs2 as [Hs2 _].
-    apply items_at_cons in Hj as [Hj _]. apply items_at_cons in Hdel as [Hdel _].
-    cbn [item_instr I] in Hi1, Hi3, Hc1, Hc2, Hc3, Hw, Hs2, Hj, Hdel.
-    repeat rewrite app_length in Hw. repeat rewrite app_length in Hib. repeat rewrite app_length in Hcs.
-    repeat rewrite app_length in Hs2. repeat rewrite app_length in Hj. repeat rewrite app_length in Hdel.
-    repeat rewrite map_length in Hw. repeat rewrite map_length in Hib. repeat rewrite map_length in Hj. repeat rewrite map_length in Hdel.
-    cbn [length] in Hw, Hib, Hcs, Hs2, Hj, Hdel.
-    fold lbd ls in Hw, Hib, Hcs, Hs2, Hj, Hdel.
-    set (k1 := k + la) in *. set (k3 := S k1 + lb) in *. set (kc := S k3) in *.
-    set (kw := S (S (S kc))). set (kb := S kw). set (ks := kb + lbd). set (kp := ks + ls). set (kj := S kp). set (kd := S kj). set (fin := S kd).
-    assert (Hw' : nth_error code kw = Some (mkI OP_WHILE_LOOP [sN (lbd + ls + 3)])).
-    { replace (lbd + ls + 3) with (lbd + (ls + 1) + 1 + 1) by lia. exact Hw. }
-    assert (Hib' : items_at kd ks kb cb0).
-    { replace kd with (S (S (S (S kc))) + (lbd + (ls + 1) + 1)) by (unfold kd, kj, kp, ks, kb, kw; lia).
-      replace ks with (S (S (S (S kc))) + (lbd + (ls + 1) + 1) - (ls + 1) - 1) by (unfold ks, kb, kw; lia).
-      exact Hib. }
-    assert (Hcs' : code_at code ks (pcode c se)) by exact Hcs.
-    assert (Hs2' : nth_error code kp = Some (mkI OP_BIN_OP_ASSIGN [[43%N; 61%N]; idn])) by exact Hs2.
-    assert (Hj' : nth_error code kj = Some (mkI OP_JMP_POP [neg_off (lbd + ls + 5)])).
-    { replace kj with (S (S (S (S kc))) + (lbd + (ls + 1))) by (unfold kj, kp, ks, kb, kw; lia).
-      replace (lbd + ls + 5) with (1 + 3 + (lbd + (ls + 1))) by lia. exact Hj. }
-    assert (Hdel' : nth_error code kd = Some (mkI OP_DELETE_NAME_SCOPED [idn; endr])).
-    { replace kd with (S (S (S (S kc))) + (lbd + (ls + 1) + 1)) by (unfold kd, kj, kp, ks, kb, kw; lia). exact Hdel. }
-    clear Hw Hib Hcs Hs2 Hj Hdel.
-    assert (Hfin : k + (la + 1 + lb + 1 + 3 + 1 + (lbd + ls + 2) + 1) = fin) by (unfold fin, kd, kj, kp, ks, kb, kw, kc, k3, k1; lia).
-    rewrite Hfin in *.
-    assert (Hsml : forall j, j <= S (S (S lr)) -> small j).
-    { intros j Hj. eapply small_le; [|exact Hsmall]. unfold fin, kd, kj, kp, ks, kb, kw, kc, k3, k1 in Hend. lia. }
-    assert (Hie : idn <> endr).
-    { intros E. apply lregn_inj in E; [lia|apply Hsml; lia|apply Hsml; lia]. }
-    assert (Hnej : forall j, j <= lr -> lregn j <> idn /\ lregn j <> endr).
-    { intros j Hj. split; intros E; apply lregn_inj in E; try lia; apply Hsml; lia. }
-    destruct HR as (HG & Hops & Hss).
-    rewrite exec_SFrom. cbn [after].
-    destruct fuel as [|fuel]; [exact Logic.I|].
-    (* the lower bound *)
-    pose proof (rhs_run a0 pins c (S fuel) k a g env s B ltac:(lia) Hoa Hb
-                  ltac:(fold la; unfold fin, kd, kj, kp, ks, kb, kw, kc, k3, k1 in *; lia) Hca
-                  ltac:(fold la; unfold fin, kd, kj, kp, ks, kb, kw, kc, k3, k1 in *; lia) Hip Hacb Hops HG) as He.
-    fold la in He. fold k1 in He. rename s into s00.
-    destruct (eval (S fuel) env a0 s00) as [va s|s|f s|]; cbn [rhs_res] in He; [|exact Logic.I|exact He|exact Logic.I].
-    destruct He as (Hfoa & a1x & g1 & R1 & Hip1 & Hops1 & HG1 & Hf1 & Ha1 & Hss1 & Hlk1 & _).
-    rewrite (act_ext a a1x _ _ Ha1 Hip1 Hops1 Hss1) in R1. clear a1x Hip1 Hops1 Ha1 Hss1.
-    destruct (locals env) as [|sc0 l'] eqn:El; [exact (False_ind _ (Rg_ne _ _ _ HG1 El))|].
-    (* store_fast L#(lr+1): the hidden counter's register in the top frame (the reference semantics declares the counter
-       only after it has evaluated the upper bound) *)
-    set (a1 := upd a k1 [inj va]) in *.
-    set (i_sx := mkI OP_STORE_FAST [idn]) in *.
-    set (g1t := trc name a1 g1 i_sx).
-    assert (HG1t : Rg pins env s g1t) by (apply Rg_trc; exact HG1).
-    destruct (bind_reg_rel pins env s g1t idn (inj va) HG1t (lregn_not_uname0 _)) as (f1 & R & Ef1 & Hb1).
-    cbv zeta in Hb1. destruct Hb1 as [Hbind1 HG2v].
-    set (c' := N.of_nat (length (cells g1t))) in *.
-    set (F1 := {| lab := lab f1; vars := assoc_set idn c' (vars f1) |}) in *.
-    match type of HG2v with Rg _ _ _ ?G => set (g2 := G) in * end.
-    set (a2 := upd a (S k1) []).
-    assert (R2 : xrun prog name code a g a2 g2).
-    { eapply xrun_trans; [exact R1|].
-      eapply (xstep_next prog name code a1 g1 i_sx _ k1 (set_ops a1 [])); [reflexivity|exact Hi1|apply dec_store_fast|].
-      apply (exec_store_fast idn a1 g1t (inj va) g2); [reflexivity|exact Hbind1]. }
-    set (pinsV := add_vpin pins c' (inj va)) in *.
-    (* freshness of the counter's VM cell *)
-    assert (HfrV : forall (Q : pinset) l0 fs0 st0, pins_ok Q l0 fs0 st0 (cells g1t) -> forall w, ~ vpin Q c' w).
-    { intros Q l0 fs0 st0 [H1 _] w Hq. destruct (H1 c' w Hq) as [A _]. unfold c' in A. rewrite Nnat.Nat2N.id in A.
-      assert (length (cells g1t) < length (cells g1t)) by (apply nth_error_Some; congruence). lia. }
-    pose proof (HfrV _ _ _ _ (Rg_pins _ _ _ HG1t)) as HPv. pose proof (HfrV _ _ _ _ (Rg_fpin _ _ _ HG1t)) as HFv.
-    (* the upper bound (it may contain calls): evaluated by the reference semantics before the counter exists *)
-    pose proof (rhs_run b pinsV c (S fuel) (S k1) a2 g2 env s B ltac:(lia) Hob Hb
-                  ltac:(fold lb; unfold fin, kd, kj, kp, ks, kb, kw, kc, k3 in *; lia) Hcb
-                  ltac:(fold lb; unfold fin, kd, kj, kp, ks, kb, kw, kc, k3 in *; lia) eq_refl Hacb eq_refl HG2v) as Heb.
-    fold lb in Heb. rename s into s0a.
-    destruct (eval (S fuel) env b s0a) as [vb s|s|f s|]; cbn [rhs_res] in Heb; [|exact Logic.I| |exact Logic.I].
-    2:{ eapply fail_post_map; [|exact Heb]. intros (e0 & g' & Hf & Hr & Ho). exists e0, g'.
-        split; [eapply xrun_fail; [exact R2|exact Hf]|]. auto. }
-    destruct Heb as (Hfob & a3x & g3 & R3 & Hip3 & Hops3 & HG3v & Hf3 & Ha3 & Hss3 & Hlk3 & _).
-    rewrite (act_ext a2 a3x _ _ Ha3 Hip3 Hops3 Hss3) in R3. clear a3x Hip3 Hops3 Ha3 Hss3.
-    (* the top frame of g3, explicitly *)
-    destruct g3 as [cs3 fs3 o3 tr3]. cbn [frames] in Hf3, Hlk3.
-    destruct fs3 as [|[lb3 vs3] Rx]; [exfalso; exact (proj2 (Rfr_ne _ _ _ _ (Rg_fr _ _ _ HG3v)) eq_refl)|].
-    cbn [tl g2 frames] in Hf3. subst Rx.
-    set (g3 := {| cells := cs3; frames := {| lab := lb3; vars := vs3 |} :: R; out := o3; trace := tr3 |}) in *.
-    (* the hidden counter: source name `hid` in the innermost scope, VM register L#(lr+1) in the top frame *)
-    set (cx := N.of_nat (length (store s))).
-    set (lL := assoc_set hid cx sc0 :: l').
-    set (env1 := {| locals := lL; captured := captured env; cur := cur env |}).
-    set (s1 := {| store := store s ++ [va]; rout := rout s |}).
-    assert (Edec : declare env s hid va = (env1, s1)).
-    { unfold declare, alloc. rewrite El. reflexivity. }
-    assert (Es1 : forall c0 v, sget s c0 = Some v -> sget s1 c0 = Some v).
-    { intros c0 v Hv. unfold sget in *. cbn [s1 store]. rewrite nth_error_app1; [exact Hv|apply nth_error_Some; congruence]. }
-    set (pins2 := add_spin pinsV cx va).
-    assert (HG3 : Rg pins2 env1 s1 g3).
-    { pose proof (alloc_rel _ _ _ _ va HG3v) as HA. fold cx s1 in HA.
-      pose proof (top_swap_rel _ env s1 g3 sc0 l' {| lab := lb3; vars := vs3 |} R (assoc_set hid cx sc0) vs3 HA El eq_refl) as HT.
-      apply HT.
-      - intros y Hy. now rewrite assoc_set_other.
-      - intros y _. reflexivity.
-      - pose proof (Rg_nd _ _ _ HA) as Hnd. inversion Hnd; assumption. }
-    (* freshness of the counter's source cell *)
-    assert (HfrS : forall (Q : pinset) l0 fs0 cs0, pins_ok Q l0 fs0 (store s) cs0 -> forall v, ~ spin Q cx v).
-    { intros Q l0 fs0 cs0 [_ H2] v Hq. destruct (H2 cx v Hq) as [A _]. unfold cx in A. rewrite Nnat.Nat2N.id in A.
-      assert (length (store s) < length (store s)) by (apply nth_error_Some; congruence). lia. }
-    assert (HPs : forall v, ~ spin pins cx v).
-    { intros v Hq. exact (HfrS _ _ _ _ (Rg_pins _ _ _ HG3v) v Hq). }
-    pose proof (HfrS _ _ _ _ (Rg_fpin _ _ _ HG3v)) as HFs.
-    assert (HbL1 : bound_in B env1).
-    { destruct Hb as [H1 H2]. split; [|exact H2]. intros y Hy. rewrite <- (H1 y Hy). cbn [env1 locals lL lookup_scopes].
-      rewrite El. cbn [lookup_scopes]. now rewrite assoc_set_other. }
-    destruct va as [i0|?|?| |? ? ?]; try exact Logic.I.
-    destruct vb as [hi|?|?| |? ? ?]; try exact Logic.I.
-    cbv zeta. change [0%N] with hid.
-    rewrite Edec.
-    set (a3 := upd a2 (S k1 + lb) [inj (RInt hi)]) in *.
-    (* store_fast L#(lr+2) *)
-    set (i_se := mkI OP_STORE_FAST [endr]) in *.
-    set (g3t := trc name a3 g3 i_se).
-    assert (HG3t : Rg pins2 env1 s1 g3t) by (apply Rg_trc; exact HG3).
-    destruct (bind_reg_rel pins2 env1 s1 g3t endr (inj (RInt hi)) HG3t (lregn_not_uname0 _)) as (f3 & R' & Ef3 & Hb3).
-    cbv zeta in Hb3. destruct Hb3 as [Hbind3 HG4].
-    set (ce := N.of_nat (length (cells g3t))) in *.
-    set (F2 := {| lab := lab f3; vars := assoc_set endr ce (vars f3) |}) in *.
-    match type of HG4 with Rg _ _ _ ?G => set (g4 := G) in * end.
-    assert (ER : R' = R).
-    { assert (H : frames g3t = {| lab := lb3; vars := vs3 |} :: R) by reflexivity. rewrite Ef3 in H. now inversion H. }
-    subst R'.
-    set (a4 := upd a (S (S k1 + lb)) []).
-    assert (Hip4 : a_ip a4 = kc) by reflexivity.
-    assert (R4 : xrun prog name code a g a4 g4).
-    { eapply xrun_trans; [exact R2|]. eapply xrun_trans; [exact R3|].
-      eapply (xstep_next prog name code a3 g3 i_se _ k3 (set_ops a3 [])); [reflexivity|exact Hi3|apply dec_store_fast|].
-      apply (exec_store_fast endr a3 g3t (inj (RInt hi)) g4); [reflexivity|exact Hbind3]. }
-    (* ---- static facts about the loop-head frames F2 :: R and scopes lL *)
-    assert (HR_tl : R = tl (frames g)).
-    { rewrite <- Hf1. change (frames g1) with (frames g1t). now rewrite Ef1. }
-    assert (Hidf3 : assoc idn (vars f3) = Some c').
-    { pose proof (proj2 (Hlk3 (S lr))) as H. fold idn in H.
-      change ({| lab := lb3; vars := vs3 |} :: R) with (frames g3t) in H. rewrite Ef3 in H. cbn [top_vars frames g2 F1 vars] in H. rewrite H. apply assoc_set_same. }
-    assert (HaiF2 : assoc idn (vars F2) = Some c').
-    { unfold F2. cbn [vars]. rewrite assoc_set_other by exact Hie. exact Hidf3. }
-    assert (HaeF2 : assoc endr (vars F2) = Some ce) by (unfold F2; cbn [vars]; apply assoc_set_same).
-    assert (Ef4 : frames g4 = F2 :: R) by reflexivity.
-    assert (HndF2 : keys_nd (vars F2)).
-    { pose proof (Rg_nd _ _ _ HG4) as Hnd. rewrite Ef4 in Hnd. inversion Hnd; assumption. }
-    assert (Hcec : ce <> c').
-    { intros E. destruct (Rg_pins _ _ _ HG3) as [Hv _].
-      destruct (Hv c' _ (or_introl (conj eq_refl eq_refl))) as [A _].
-      assert (Hl : N.to_nat c' < length (cells g3)) by (apply nth_error_Some; congruence).
-      rewrite <- E in Hl. unfold ce in Hl. rewrite Nnat.Nat2N.id in Hl. change (cells g3t) with (cells g3) in Hl. lia. }
-    assert (HlkF2 : lkeep lr (frames g) (F2 :: R)).
-    { intros j Hj. destruct (Hnej j Hj) as [N1 N2]. cbn [find_in_function F2 vars lab]. rewrite assoc_set_other by exact N2.
-      change (match assoc (lregn j) (vars f3) with Some c0 => Some c0 | None => if special (lab f3) then find_in_function (lregn j) R else None end)
-        with (find_in_function (lregn j) (f3 :: R)).
-      rewrite <- Ef3. change (frames g3t) with (frames g3). eapply eq_trans; [exact (proj1 (Hlk3 j))|].
-      cbn [g2 frames find_in_function F1 vars lab]. rewrite assoc_set_other by exact N1.
-      change (match assoc (lregn j) (vars f1) with Some c0 => Some c0 | None => if special (lab f1) then find_in_function (lregn j) R else None end)
-        with (find_in_function (lregn j) (f1 :: R)).
-      rewrite <- Ef1. change (frames g1t) with (frames g1). exact (proj1 (Hlk1 j)). }
-    set (pL := fun i : Z => cpins pins cx c' i ce hi).
-    assert (HG4' : Rg (pL i0) env1 s1 g4).
-    { eapply Rg_pins_imp; [exact HG4| |].
-      - intros cy w [[-> ->]|[[-> ->]|Hq]]; cbn [add_vpin add_spin pins2 vpin]; [right; left; auto|left; auto|right; right; exact Hq].
-      - intros c0 v [[-> ->]|Hq]; cbn [add_vpin add_spin pins2 spin]; [left; auto|right; exact Hq]. }
-    assert (HlxL : lookup_scopes hid lL = Some cx) by (cbn [lL lookup_scopes]; now rewrite assoc_set_same).
-    assert (HlenL : length lL = S (length l')) by reflexivity.
-    assert (HneLL : lL <> []) by discriminate.
-    set (sc1 := assoc_del hid (assoc_set hid cx sc0)).
-    set (vs := assoc_del endr (assoc_del idn (vars F2))).
-    (* ---- leaving the loop: delete the counter register and the end register, forget the hidden counter *)
-    assert (Hexit : forall i a5 g5 env5 s5, locals env5 = lL -> Rg (pL i) env5 s5 g5 -> frames g5 = F2 :: R ->
-              a_ip a5 = kd -> a_ops a5 = [] -> length lL <= S (a_ss a5) ->
-              exists a6 g6, xrun prog name code a5 g5 a6 g6 /\ a_ip a6 = fin /\ Rst pins (undeclare env5 hid) s5 a6 g6 /\
-                            act_same a5 a6 /\ tl (frames g6) = R /\ locals (undeclare env5 hid) = sc1 :: l' /\
-                            lkeep lr (F2 :: R) (frames g6)).
-    { intros i a5 g5 env5 s5 El5 HG5 Ef5 Hip5 Hops5 Hss5.
-      set (i_d := mkI OP_DELETE_NAME_SCOPED [idn; endr]) in *.
-      set (g5t := trc name a5 g5 i_d).
-      assert (Eu : locals (undeclare env5 hid) = sc1 :: l') by (unfold undeclare; rewrite El5; reflexivity).
-      exists (set_ip a5 (S (a_ip a5))), (with_frames g5t ({| lab := lab F2; vars := vs |} :: R)).
-      split; [|split; [|split; [|split; [|split; [|split]]]]].
-      - eapply (xstep_next prog name code a5 g5 i_d _ kd a5); [exact Hip5|exact Hdel'|apply dec_delete2|].
-        exact (exec_delete2 idn endr a5 g5t F2 R c' ce Ef5 Hie HaiF2 HaeF2).
-      - cbn [set_ip a_ip]. rewrite Hip5. reflexivity.
-      - split; [|split; [exact Hops5|]].
-        + assert (HG5p : Rg pins env5 s5 g5t).
-          { apply Rg_trc. eapply Rg_pins_imp; [exact HG5| |].
-            - intros cy w Hq. right. right. exact Hq.
-            - intros c0 v Hq. right. exact Hq. }
-          pose proof (top_swap_rel pins env5 s5 g5t (assoc_set hid cx sc0) l' F2 R sc1 vs HG5p El5 Ef5) as HT.
-          unfold undeclare. rewrite El5. apply HT.
-          * intros y Hy. unfold sc1. now rewrite assoc_del_other.
-          * intros y Hy. unfold vs. rewrite !assoc_del_other; [reflexivity| |].
-            -- intros ->. exact (lregn_not_uname0 _ Hy).
-            -- intros ->. exact (lregn_not_uname0 _ Hy).
-          * unfold vs. apply keys_nd_assoc_del. apply keys_nd_assoc_del. exact HndF2.
-        + rewrite Eu. cbn [set_ip a_ss length] in *. exact Hss5.
-      - repeat split.
-      - reflexivity.
-      - exact Eu.
-      - intros j Hj. destruct (Hnej j Hj) as [N1 N2]. cbn [with_frames frames find_in_function vars lab]. unfold vs.
-        rewrite !assoc_del_other; [reflexivity|exact N1|exact N2]. }
-    assert (Hsc1 : forall y, y <> hid -> lookup_scopes y (sc1 :: l') = lookup_scopes y (sc0 :: l')).
-    { intros y Hy. cbn [lookup_scopes]. unfold sc1. rewrite assoc_del_other, assoc_set_other by exact Hy. reflexivity. }
-    assert (HbX : forall envX, locals envX = sc1 :: l' -> bound_in B envX).
-    { intros envX EX. destruct Hb as [H1 H2]. split; [|exact H2]. intros y Hy. rewrite EX, (Hsc1 y Hy), <- El. exact (H1 y Hy). }
-    assert (HbL : forall envL, locals envL = lL -> bound_in B envL).
-    { intros envL ElL. eapply bound_in_eq; [exact HbL1|]. rewrite ElL. reflexivity. }
-    assert (Hkd : kw + (lbd + ls + 3) = kd) by (unfold kd, kj, kp, ks, kb; lia).
-    assert (Hkj : kj = kc + (lbd + ls + 5)) by (unfold kj, kp, ks, kb, kw; lia).
-    destruct (ok_expr_parts _ _ Hst) as (Hpse & Hlse & Huse).
-    (* ---- the loop *)
-    assert (Hloop : forall n i aL gL envL sL, locals envL = lL -> Rg (pL i) envL sL gL -> frames gL = F2 :: R ->
-              a_ip aL = kc -> a_cb aL = cb -> length lL <= S (a_ss aL) ->
-              post pins lr sl bt ct fin B envL (frames g) aL gL
-                   (from_iter (S fuel) incl hi step hid false body n envL sL)).
-    { induction n as [|n IH]; intros i aL gL envL sL ElL HGL EfL HipL HcbL HssL; [exact Logic.I|].
-      rewrite from_iter_S. rewrite ElL, HlxL.
-      destruct (Rg_pins _ _ _ HGL) as [PV PS].
-      assert (E3 : sget sL cx = Some (RInt i)) by exact (proj1 (PS cx (RInt i) (or_introl (conj eq_refl eq_refl)))).
-      assert (E4 : cell_get gL c' = Some (VInt i)) by exact (proj1 (PV c' (VInt i) (or_introl (conj eq_refl eq_refl)))).
-      assert (Ce : cell_get gL ce = Some (VInt hi)) by exact (proj1 (PV ce (VInt hi) (or_intror (or_introl (conj eq_refl eq_refl))))).
-      rewrite E3.
-      assert (E2 : find_in_function idn (frames gL) = Some c') by (rewrite EfL; cbn [find_in_function]; now rewrite HaiF2).
-      assert (Fe : find_in_function endr (frames gL) = Some ce) by (rewrite EfL; cbn [find_in_function]; now rewrite HaeF2).
-      destruct (from_cond_run kc idn endr incl aL gL c' ce i hi Hc1 Hc2 Hc3 HipL E2 E4 Fe Ce) as (gc & Rc & Efc & HRc).
-      set (bb := if incl then (i <=? hi)%Z else (i <? hi)%Z) in *.
-      set (ac := upd aL kw [VBool bb]) in *.
-      set (i_w := mkI OP_WHILE_LOOP [sN (lbd + ls + 3)]) in *.
-      set (gct := trc name ac gc i_w).
-      assert (HGct : Rg (pL i) envL sL gct) by (apply Rg_trc; apply HRc; exact HGL).
-      assert (Hdecw : decode i_w = DOk (DWhile (Z.of_nat (lbd + ls + 3)))) by (apply dec_while; apply small_code; unfold fin, kd, kj, kp, ks, kb in *; lia).
-      pose proof (exec_while_gen (Z.of_nat (lbd + ls + 3)) ac gct [] bb eq_refl) as Hxw.
-      assert (HneL : locals envL <> []) by (rewrite ElL; exact HneLL).
-      destruct bb.
-      2:{ (* the counter has passed the end: leave *)
-        set (a5 := set_ip (set_ops ac []) (kw + (lbd + ls + 3))).
-        assert (R5 : xrun prog name code aL gL a5 gct).
-        { eapply xrun_trans; [exact Rc|].
-          eapply (xstep_goto prog name code ac gc i_w _ kw _ (set_ops ac [])); [reflexivity|exact Hw'|exact Hdecw|exact Hxw|].
-          apply goto_fwd. cbn [set_ops a_ip ac upd set_ip]. unfold fin in *. lia. }
-        destruct (Hexit i a5 gct envL sL ElL HGct ltac:(change (frames gct) with (frames gc); now rewrite Efc) ltac:(cbn; exact Hkd) eq_refl HssL)
-          as (a6 & g6 & R6 & Hip6 & HR6 & Ha6 & Hf6 & El6 & Hlk6).
-        cbn [post]. split; [split; [rewrite El6, ElL; reflexivity|rewrite El6; discriminate]|].
-        split; [exact (HbX _ El6)|].
-        exists a6, g6. split; [eapply xrun_trans; eassumption|]. split; [exact Hip6|]. split; [exact HR6|].
-        split; [destruct Ha6 as (A1 & A2 & A3); repeat split; assumption|].
-        split; [rewrite Hf6; exact HR_tl|eapply lkeep_trans; [exact HlkF2|exact Hlk6]]. }
-      (* one more iteration: push <while>, run the body *)
-      set (a0' := set_ss (upd aL kb []) (S (a_ss aL))).
-      set (g0 := push_frame gct LWhile).
-      assert (R0 : xrun prog name code aL gL a0' g0).
-      { eapply xrun_trans; [exact Rc|].
-        eapply (xstep_push prog name code ac gc i_w _ kw LWhile (set_ops ac [])); [reflexivity|exact Hw'|exact Hdecw|exact Hxw]. }
-      assert (HR0 : Rst (pL i) (push_scope envL) sL a0' g0).
-      { split; [apply push_rel; [exact HGct|reflexivity]|]. split; [reflexivity|].
-        unfold a0'. cbn [push_scope locals length set_ss a_ss upd set_ip set_ops]. rewrite ElL. apply le_n_S. exact HssL. }
-      assert (HbL0 : bound_in B (push_scope envL)).
-      { exact (HbL envL ElL). }
-      assert (Hlc0 : lc_ok true (Some 1) kd ks (push_scope envL) (kb + length cb0)).
-      { split; [discriminate|]. intros m E. inversion E; subst m. cbn [push_scope locals length]. rewrite ElL.
-        fold lbd. fold ks. rewrite ?HlenL. cbn [lL length]. unfold fin, kd, kj, kp in *. repeat split; lia. }
-      pose proof (Hbody (pL i) (S (S lr)) true (Some 1) kd ks (S fuel) kb a0' g0 (push_scope envL) sL B ltac:(lia)
-                    ltac:(unfold kb, kw, kc, k3, k1; lia) Hokb HbL0 Hib'
-                    ltac:(left; fold cb0; fold lbd; unfold fin, kd, kj, kp, ks in *; lia) Hlc0 eq_refl HcbL HR0) as H.
-      fold cb0 in H. fold lbd in H. fold ks in H. unfold in_block_.
-      destruct (exec_block (S fuel) (push_scope envL) body sL) as [sig env2 s2|f s2|]; [| |exact Logic.I].
-      2:{ cbn [post] in H |- *. eapply fail_post_map; [|exact H]. intros (e0 & g' & Hf & Hr & Ho). exists e0, g'.
-          split; [eapply xrun_fail; eassumption|]. auto. }
-      cbn [post] in H. destruct H as [[Htl2 Hne2] H]. cbn [push_scope locals tl] in Htl2. rewrite ElL in Htl2.
-      assert (Hlen2 : length (locals env2) = S (length lL)).
-      { destruct (locals env2) as [|sc2 l2]; [congruence|]. cbn [tl] in Htl2. subst l2. reflexivity. }
-      assert (Epop : locals (pop_scope env2) = lL) by exact Htl2.
-      assert (Eg0 : frames g0 = {| lab := LWhile; vars := [] |} :: F2 :: R).
-      { unfold g0, push_frame. cbn [with_frames frames]. change (frames gct) with (frames gc). now rewrite Efc, EfL. }
-      assert (Hid0 : find_in_function idn (frames g0) = Some c').
-      { rewrite Eg0. cbn [find_in_function vars assoc lab special]. now rewrite HaiF2. }
-      (* after the body: the step, the back edge, the next iteration *)
-      assert (Hnext : forall aB gB, xrun prog name code a0' g0 aB gB -> a_ip aB = ks -> Rst (pL i) env2 s2 aB gB ->
-                act_same a0' aB -> tl (frames gB) = F2 :: R -> find_in_function idn (frames gB) = Some c' ->
-                ncd (after_l B body) env2 ->
-                post pins lr sl bt ct fin B envL (frames g) aL gL
-                  (match eval (S fuel) (pop_scope env2) se s2 with
-                   | EVal sv s0 =>
-                     match sget s0 cx, sv with
-                     | Some (RInt i'), RInt d =>
-                       if i32_ok (i' + d)%Z
-                       then from_iter (S fuel) incl hi step hid false body n (pop_scope env2) (sset s0 cx (RInt (i' + d)%Z))
-                       else SFailed FOverflow s0
-                     | _, _ => SFailed (FType 13) s0 end
-                   | ENoVal s0 => SFailed (FType 3) s0 | EFail f s0 => SFailed f s0 | EFuel => SFuel end)).
-      { intros aB gB RB HipB (HGB & HopsB & HssB) HaB HfB HidB Hncd2.
-        assert (Hup : forall y c0, y <> hid -> lookup_scopes y lL = Some c0 -> lookup_scopes y (locals env2) = Some c0).
-        { intros y c0 Hyh Hy. destruct (locals env2) as [|sc2 l2] eqn:E2l; [discriminate|]. cbn [tl] in Htl2.
-          rewrite <- Htl2 in Hy. apply NS_lookup_tl; [|exact Hyh|exact Hy]. rewrite <- E2l. exact (Rg_ns _ _ _ HGB). }
-        (* the step expression: the reference semantics evaluates it outside the loop scope; same result *)
-        destruct (step_vars (pL i) envL env2 s2 gB B body se HGB Hst Hokb (HbL envL ElL) ltac:(rewrite ElL; exact Htl2) Hne2 Hncd2) as [Huse2v Hag].
-        destruct (eval_pure_congr se Hpse (S fuel) (pop_scope env2) s2 env2 s2 Hag) as [Hst_s Es].
-        pose proof (expr_run_gen (pL i) se c (S fuel) ks aB gB env2 s2 Hpse Hlse Huse2v ltac:(lia) Hcs'
-                      ltac:(fold ls; unfold fin, kd, kj, kp in *; lia) HipB HopsB ltac:(rewrite (proj2 (proj2 HaB)); exact HcbL) HGB) as Hes.
-        rewrite Es in Hes. fold ls in Hes. fold kp in Hes.
-        destruct (eval (S fuel) (pop_scope env2) se s2) as [sv s0|s0|f s0|]; cbn [res_to res_st] in Hst_s, Hes;
-          [|contradiction| |exact Logic.I].
-        2:{ subst s0. destruct Hes as (_ & e0 & g' & Hf & Hr & Ho). cbn [post]. apply fail_post_intro. exists e0, g'.
-            split; [eapply xrun_fail; [exact R0|]; eapply xrun_fail; [exact RB|exact Hf]|]. split; [now apply err_rel_s_of|exact Ho]. }
-        subst s0. destruct Hes as (_ & Hfos & gE & RE & HGE & HfE & HlkE).
-        set (aE := upd aB kp [inj sv]) in *.
-        destruct (Rg_pins _ _ _ HGE) as [PVE PSE].
-        assert (G3 : sget s2 cx = Some (RInt i)) by exact (proj1 (PSE cx (RInt i) (or_introl (conj eq_refl eq_refl)))).
-        assert (G4 : cell_get gE c' = Some (VInt i)) by exact (proj1 (PVE c' (VInt i) (or_introl (conj eq_refl eq_refl)))).
-        assert (G2 : find_in_function idn (frames gE) = Some c') by exact (eq_trans (proj1 (HlkE (S lr))) HidB).
-        rewrite G3.
-        destruct sv as [d|?|?| |? ? ?]; try exact Logic.I.
-        pose proof (from_add_run kp idn d aE gE c' i Hs2' eq_refl eq_refl G2 G4) as Hsr.
-        destruct (i32_ok (i + d)%Z).
-        - destruct Hsr as (gS' & RS & EfS' & HRgS').
-          set (sS := sset s2 cx (RInt (i + d)%Z)).
-          set (aS := upd aE (S kp) [VInt (i + d)%Z]) in *.
-          set (gS := cell_set gS' c' (VInt (i + d)%Z)) in *.
-          assert (HGS : Rg (pL (i + d)%Z) env2 sS gS).
-          { apply (cpins_update pins cx c' i (i + d)%Z ce hi env2 s2 gS'); [apply HRgS'; exact HGE|exact HPv|exact HPs|exact HFv|exact HFs|exact Hcec]. }
-          destruct (back_edge_gen (pL (i + d)%Z) kj (lbd + ls + 5) kc env2 sS aS gS Hj' ltac:(unfold fin, kd, kj, kp, ks in *; lia)
-                      ltac:(unfold fin, kd in *; lia) Hkj eq_refl HGS ltac:(rewrite Hlen2; cbn [lL length]; lia))
-            as (gN & RN & HGN & EfN).
-          eapply (post_seq pins lr sl bt ct fin B envL (frames g) aL gL (pop_scope env2) (set_ip aS kc) gN).
-          + eapply xrun_trans; [exact R0|]. eapply xrun_trans; [exact RB|]. eapply xrun_trans; [exact RE|].
-            eapply xrun_trans; [exact RS|exact RN].
-          + split; [rewrite Epop, ElL; reflexivity|rewrite Epop; exact HneLL].
-          + destruct HaB as (A1 & A2 & A3). repeat split; assumption.
-          + apply (IH (i + d)%Z); [exact Epop|exact HGN| |reflexivity|cbn [set_ip aS aE upd set_ops a_cb]; rewrite (proj2 (proj2 HaB)); exact HcbL|].
-            * rewrite EfN. change (frames gS) with (frames gS'). rewrite EfS', HfE. exact HfB.
-            * cbn [set_ip aS aE upd set_ops a_ss]. rewrite Hlen2 in HssB. lia.
-        - destruct Hsr as (g3x & Rf3 & Ho3). cbn [post fail_post]. exists (E_overflow OP_BIN_OP), g3x.
-          split; [eapply xrun_fail; [exact R0|]; eapply xrun_fail; [exact RB|]; eapply xrun_fail; [exact RE|exact Rf3]|].
-          split; [left; reflexivity|]. rewrite Ho3. exact (Rg_out _ _ _ HGE). }
-      assert (Hstepc : forall (e' : fenv) (s' : rstate) (bump : rvalue -> rstate -> sres_),
-                match step with
-                | None => bump (RInt 1) s'
-                | Some se0 => match eval (S fuel) e' se0 s' with
-                              | EVal sv s0 => bump sv s0 | ENoVal s0 => SFailed (FType 3) s0
-                              | EFail f s0 => SFailed f s0 | EFuel => SFuel end
-                end = match eval (S fuel) e' se s' with
-                      | EVal sv s0 => bump sv s0 | ENoVal s0 => SFailed (FType 3) s0
-                      | EFail f s0 => SFailed f s0 | EFuel => SFuel end).
-      { intros e' s' bump. unfold se. destruct step as [e|]; reflexivity. }
-      destruct sig as [| | |rv].
-      - destruct H as (HB2 & aB & gB & RB & HipB & HRB & HaB & HfB & HlkB). rewrite Eg0 in HfB. cbn [tl] in HfB. cbv zeta. rewrite Hstepc.
-        apply (Hnext aB gB RB HipB HRB HaB HfB); [exact (eq_trans (HlkB (S lr) ltac:(lia)) Hid0)|exact (ncd_of_bound _ _ HB2)].
-      - (* break *)
-        destruct H as (m & aB & gB & Esl & RB & HipB & HRB & HaB & HfB). inversion Esl; subst m.
-        rewrite Eg0 in HfB. cbn [skipn] in HfB.
-        rewrite popn_1 in HRB. destruct HRB as (HGB & HopsB & HssB).
-        destruct (Hexit i aB gB (pop_scope env2) s2 Epop HGB HfB HipB HopsB ltac:(rewrite <- Epop; exact HssB))
-          as (a6 & g6 & R6 & Hip6 & HR6 & Ha6 & Hf6 & El6 & Hlk6).
-        cbn [post]. split; [split; [rewrite El6, ElL; reflexivity|rewrite El6; discriminate]|].
-        split; [exact (HbX _ El6)|].
-        exists a6, g6. split; [eapply xrun_trans; [exact R0|]; eapply xrun_trans; eassumption|]. split; [exact Hip6|].
-        split; [exact HR6|]. split; [|split; [rewrite Hf6; exact HR_tl|eapply lkeep_trans; [exact HlkF2|exact Hlk6]]].
-        destruct HaB as (A1 & A2 & A3), Ha6 as (B1 & B2 & B3).
-        repeat split; [rewrite B1, A1|rewrite B2, A2|rewrite B3, A3]; reflexivity.
-      - (* continue *)
-        destruct H as (m & aB & gB & Esl & RB & HipB & HRB & HaB & HfB & HlkB & HnB). inversion Esl; subst m.
-        rewrite Eg0 in HfB. cbn [skipn] in HfB.
-        cbn [Nat.sub] in HRB, HlkB, HnB. rewrite popn_0 in HRB, HnB. cbn [skipn] in HlkB. cbv zeta. rewrite Hstepc.
-        apply (Hnext aB gB RB HipB HRB HaB HfB); [exact (eq_trans (HlkB (S lr) ltac:(lia)) Hid0)|exact HnB].
-      - (* return from inside the loop *)
-        destruct rv as [v|]; [|destruct H].
-        destruct H as (env'' & aB & gB & RB & HiB & HoB & HfoB & HGB & HaB).
-        cbn [post]. split.
-        { unfold undeclare. rewrite Epop. cbn [locals lL]. split; [rewrite ElL; reflexivity|discriminate]. }
-        exists env'', aB, gB. split; [eapply xrun_trans; [exact R0|exact RB]|].
-        split; [exact HiB|]. split; [exact HoB|]. split; [exact HfoB|].
-        split; [eapply Rg_pins_imp; [exact HGB|intros cy w Hq; right; right; exact Hq|intros c0 v0 Hq; right; exact Hq]|].
-        destruct HaB as (A1 & A2 & A3). repeat split; assumption. }
-    (* ---- put the pieces together *)
-    eapply (post_seq pins lr sl bt ct fin B env (frames g) a g env1 a4 g4); [exact R4| |repeat split|].
-    { split; [cbn [env1 locals lL tl]; rewrite El; reflexivity|discriminate]. }
-    apply (Hloop (S fuel) i0); [reflexivity|exact HG4'|exact Ef4|exact Hip4|exact Hacb|].
-    unfold lL, a4. cbn [length upd set_ip set_ops a_ss] in *. exact Hss.
-  Qed.
-
-  (* ================================================================ return e *)
   Lemma exec_SReturn : forall fuel env e s, Eval.exec (S fuel) env (SReturn (Some e)) s =
     match eval fuel env e s with
     | EVal v s => SOk (SigReturn (Some v)) env s
@@ -3969,13 +3140,7 @@ Section Sim.
     - intros cnd b e _ Hb He. apply ifelse_correct; now apply block_of_stmts.
     - intros cnd b n _ Hb Hn. apply ifelif_correct; [now apply block_of_stmts|exact Hn].
     - intros cnd b _ Hb. apply while_correct. now apply block_of_stmts.
-    - intros a b incl step nm col body _ _ _ Hbody.
-      destruct nm as [x|].
-      + apply from_named_correct. now apply block_of_stmts.
-      + destruct col.
-        * intros pins lr il sl bt ct fuel k a0 g env s B Hfu Hlr Hok. rewrite ok_SFrom in Hok.
-          rewrite Bool.andb_false_r in Hok. discriminate.
-        * apply from_anon_correct. now apply block_of_stmts.
+    - intros a b incl step nm col body _ _ _ Hbody pins lr il sl bt ct fuel k a0 g env s B Hfu Hlr Hok. rewrite ok_SFrom in Hok. discriminate.
     - apply break_correct.
     - apply continue_correct.
     - intros [e|] _; [apply return_correct|]. intros pins lr il sl bt ct fuel k a g env s B Hfu Hlr Hok. discriminate.
